@@ -107,6 +107,7 @@ class Prop:
     case_module = "CaseC08"
     case_vo = "theories/Cases/CaseC08.vo"
     run_fn = "run08"
+    post_variants = {"quick": 40, "thorough": 400}
     shard = 250
     rule = ("plain Trees and TypedTrees; one case = tree x verdict per node from {True, False/None, SkipBranch()/SkipBranch(and_self=True), "
             "SkipBranch(and_self=False), SelectBranch, StopTraversal/StopIteration} x per-node flavour (returned or raised, class or instance) "
